@@ -297,6 +297,11 @@ var c19BrokenSources = []string{
 	"BEGIN { \"unterminated }",
 }
 
+// c19SaltedRegexProgram uses dynamic regexes whose text (SALT) is new to the process.
+const c19SaltedRegexProgram = `BEGIN { re = "^(a|ab|SALT)+$"; alt = "b|bSALT|bc" }
+{ if ($0 ~ re) m++; if (match($0, alt)) { n += RLENGTH; s = s RSTART }; gsub("[aeiou]|SALT", "#"); out = out $0 }
+END { print m + 0, n + 0, s, length(out); print match("abSALT", "a|abSALT"), RLENGTH, match("bc", alt), RLENGTH }`
+
 // c19ShellProgram shells out through the default shell command (race layer and scheduler).
 const c19ShellProgram = `BEGIN { n = 3 }
 { cmd = "echo got-" $1 "-" NR; cmd | getline line; close(cmd); print line; if (NR <= n) { r = system("exit " NR); print "sys", r } }
@@ -952,13 +957,14 @@ func c19RunThreads(sc *c19Scn, keep bool) core.Outcome {
 	}
 	prog := pr.Program
 	h0 := programHash(prog)
-	var want []c19ExecOut
-	for _, in := range sc.Inputs {
-		sink := core.NewSimSink("out", nil)
-		it, _ := interp.New(prog)
-		r := guarded(func() (int, error) { return it.Execute(c19Config(sc, in, sink, nil)) })
-		want = append(want, c19ExecOut{sink.String(), r.Status, r.errString(), r.Panic})
+	// The single executions the concurrent ones are compared with run *after* them: whatever
+	// the first use of something in this process does (a cache being filled, a table being
+	// built) then happens in several goroutines at once.
+	type c19Got struct {
+		t, input int
+		out      c19ExecOut
 	}
+	var gots []c19Got
 	var wg sync.WaitGroup
 	var mu sync.Mutex
 	var fail *core.Failure
@@ -1011,19 +1017,28 @@ func c19RunThreads(sc *c19Scn, keep bool) core.Outcome {
 				}
 				r := guarded(func() (int, error) { return it.Execute(c19Config(sc, sc.Inputs[i], sink, nil)) })
 				got := c19ExecOut{sink.String(), r.Status, r.errString(), r.Panic}
-				if got != want[i] {
-					mu.Lock()
-					if fail == nil {
-						fail = &core.Failure{Oracle: "concurrent-vs-sequential", Detail: fmt.Sprintf("goroutine %d: status=%d err=%q panic=%q stdout=%q, sequential: status=%d err=%q stdout=%q\nsource:\n%s",
-							t, got.Status, got.Err, got.Panic, clip(got.Stdout, 200), want[i].Status, want[i].Err, clip(want[i].Stdout, 200), sc.Src)}
-					}
-					mu.Unlock()
-				}
+				mu.Lock()
+				gots = append(gots, c19Got{t, i, got})
+				mu.Unlock()
 				runtime.Gosched()
 			}
 		}()
 	}
 	wg.Wait()
+	var want []c19ExecOut
+	for _, in := range sc.Inputs {
+		sink := core.NewSimSink("out", nil)
+		it, _ := interp.New(prog)
+		r := guarded(func() (int, error) { return it.Execute(c19Config(sc, in, sink, nil)) })
+		want = append(want, c19ExecOut{sink.String(), r.Status, r.errString(), r.Panic})
+	}
+	sort.Slice(gots, func(a, b int) bool { return gots[a].t < gots[b].t }) // (stable enough: the first mismatch of the lowest goroutine is reported)
+	for _, g := range gots {
+		if fail == nil && g.out != want[g.input] {
+			fail = &core.Failure{Oracle: "concurrent-vs-sequential", Detail: fmt.Sprintf("goroutine %d: status=%d err=%q panic=%q stdout=%q, sequential: status=%d err=%q stdout=%q\nsource:\n%s",
+				g.t, g.out.Status, g.out.Err, g.out.Panic, clip(g.out.Stdout, 200), want[g.input].Status, want[g.input].Err, clip(want[g.input].Stdout, 200), sc.Src)}
+		}
+	}
 	if fail == nil {
 		if h := programHash(prog); h != h0 {
 			fail = &core.Failure{Oracle: "program-modified", Detail: fmt.Sprintf("the shared Program changed during concurrent executions\nsource:\n%s", sc.Src)}
@@ -1046,6 +1061,14 @@ func (e c19Engine) GenRace(r *core.Rand, i int) any {
 		sc.Quanta, sc.Choices = nil, nil
 		sc.Threads = r.Range(4, 12)
 		sc.Reps = r.Range(5, 30)
+		if r.Chance(1, 4) {
+			// dynamic regular expressions no execution of this process has compiled before
+			salt := ""
+			for k := 0; k < 6; k++ {
+				salt += string(rune('k' + r.Intn(10)))
+			}
+			sc.Src, sc.Native = strings.ReplaceAll(c19SaltedRegexProgram, "SALT", salt), false
+		}
 		if r.Chance(1, 6) {
 			// executions that shell out with the default shell command at the same time
 			sc.Src, sc.Native = c19ShellProgram, false
